@@ -107,6 +107,14 @@ private theorem step_ok {strict : Bool} {P Q : Nat → Prop} (H : Hyp strict P Q
       have hi' : GInv P { s with opened := s.opened + 1 } h :=
         ⟨hi.sent_eq, hi.sent_min, hi.surf_le, hi.largest_ok, hi.incoming_ok⟩
       exact ⟨by simp [valid, okObs], by simpa [pushAll, Hist.push] using hi', by simp [outcomes, arrivals]⟩
+  | resolve id =>
+    by_cases hc : id ∈ s.ongoing
+    · have e : step s (.resolve id) = (s, [.served id]) := by simp [step, hc]
+      rw [e]
+      exact ⟨by simp [valid, okObs], by simpa [pushAll, Hist.push] using hi, by simp [outcomes, arrivals]⟩
+    · have e : step s (.resolve id) = (s, []) := by simp [step, hc]
+      rw [e]
+      exact ⟨by simp [valid], by simpa [pushAll] using hi, by simp [outcomes, arrivals]⟩
 
 private theorem run_ok {strict : Bool} {P Q : Nat → Prop} (H : Hyp strict P Q) (evs : List Ev) :
     ∀ (s : State) (h : Hist), GInv P s h → (∀ e ∈ evs, evOk P Q e) →
@@ -304,6 +312,27 @@ example : inProgress (trace {} [.arrive 0, .accept, .shutdown 0, .arrive 4, .acc
     inProgress (trace {} [.arrive 0, .accept, .shutdown 0, .arrive 4, .accept, .complete 0, .arrive 8]) = [] := by
   decide
 
+/-- **Every request below the line is still served.**  After every history — whatever GOAWAYs
+    were sent in it (`shutdown n` at any moment, the last one of `accept`) or received from the
+    peer, and also after `accept` has answered `None` — `resolve_request` on a request that is in
+    progress (shown to the application earlier, not completed: `inProgress`) returns the request
+    and leaves the connection as it was.  (Which arrivals are shown is `C08_server_line`: exactly
+    those below the last identifier sent; the oracle's clause `notServed ⇒ false` is part of
+    `valid` there.) -/
+theorem C08_surfaced_request_is_served (evs : List Ev) (id : Nat) (h : id ∈ inProgress (trace {} evs)) :
+    step (run {} evs).1 (.resolve id) = ((run {} evs).1, [.served id]) ∧
+    okObs true (pushAll {} (run {} evs).2) (.served id) = true := by
+  rw [(C08_accept_none_history evs).1] at h
+  exact ⟨by simp [step, h], rfl⟩
+
+-- request 0 is served after shutdown(0) has announced 4, after the peer's GOAWAY, and request 4 (below the
+-- line of shutdown(1)) is served after `accept` has refused request 8
+example : (run {} [.arrive 0, .accept, .shutdown 0, .recvGoaway 0, .accept, .resolve 0]).2 =
+      [.surfaced 0, .goaway 4, .shutdownOk, .acceptPending, .served 0] ∧
+    (run {} [.arrive 0, .accept, .shutdown 1, .arrive 4, .arrive 8, .accept, .accept, .resolve 4, .resolve 8]).2 =
+      [.surfaced 0, .goaway 8, .shutdownOk, .surfaced 4, .rejected 8, .acceptPending, .served 4] ∧
+    valid true {} [.surfaced 0, .goaway 4, .notServed 0] = false := by decide
+
 /-! ### client -/
 
 /-- events of a client history; identifiers come off the wire as 62-bit integers
@@ -368,6 +397,7 @@ private theorem client_run (evs : List Ev) : ∀ (s : State) (ps buf : List Nat)
     | accept => exact absurd he (by simp [ClientEv])
     | shutdown _ => exact absurd he (by simp [ClientEv])
     | complete _ => exact absurd he (by simp [ClientEv])
+    | resolve _ => exact absurd he (by simp [ClientEv])
 
 /-- **The client's rules.**  For every sequence of GOAWAY identifiers received, driver polls and
     `send_request` calls, with `c` the oracle's verdict on the identifiers the driver has been
